@@ -106,7 +106,7 @@ func VerifNewBlock(kind string, content []byte, cached bool, alg string, enc int
 			"WARC-Profile: %s\r\nContent-Type: application/http\r\nContent-Length: %d\r\n\r\n", ProfileServerNotModifiedV1_1, len(content))
 		rec.Write(content)
 		rec.WriteString("\r\n\r\n")
-		wr, _, _, err := NewUnmarshaler(WithNoValidation(), WithDefaultDigestAlgorithm(alg), WithDefaultDigestEncoding(digestEncoding(enc)),
+		wr, _, _, err := NewUnmarshaler(VerifPolicies(0, 0, 0, 0), WithDefaultDigestAlgorithm(alg), WithDefaultDigestEncoding(digestEncoding(enc)),
 			WithBufferMaxMemBytes(maxMem), WithBufferTmpDir(tmp)).Unmarshal(bufio.NewReader(&rec))
 		if err != nil {
 			return nil, err
